@@ -228,7 +228,24 @@ func GetS2(c *core.Ctx) *Set {
 			if sc != nil {
 				src = "S2:" + sc.Name
 			}
-			g, err := model.Build(name, src, p.Fset, p.Syntax, p.TypesInfo, p.Types, s.Linker)
+			if sc != nil && sc.NoModel {
+				continue
+			}
+			// companion files of the stock protoc-gen-go (Schema.PbGo) are part of the package but not generated code of
+			// this plugin
+			syn := p.Syntax
+			if sc != nil && len(sc.PbGo) > 0 {
+				syn = nil
+				for _, f := range p.Syntax {
+					if !strings.HasSuffix(p.Fset.Position(f.Pos()).Filename, ".pb.go") {
+						syn = append(syn, f)
+					}
+				}
+				if len(syn) == 0 {
+					continue
+				}
+			}
+			g, err := model.Build(name, src, p.Fset, syn, p.TypesInfo, p.Types, s.Linker)
 			if err != nil {
 				c.Fail("G.model", "S2 package "+name, err.Error(), "", src)
 				continue
